@@ -544,10 +544,15 @@ def eval_chain(cx, chain, out, rep, fold=True):
         fold_rep = "(%s %s%d)" % (fold_rep, chain[i][0], i)
     fold_tree = next(t for t in roots if t.rep == fold_rep)
     cls = config_class(cx, full)
-    for form, call_args in (("flat", args), ("list", [list(args)])):
+    shared_list = list(args)            # one list object handed to the library twice: it must come back unchanged
+    for form, call_args in (("flat", args), ("list", [list(args)]), ("list-reused-1", [shared_list]), ("list-reused-2", [shared_list])):
         ok, val = A.call(compose_qoperations, *call_args)
         out.ops += 1
         out.traces += 1
+        if form.startswith("list-reused") and not (len(shared_list) == len(args) and all(x is y for x, y in zip(shared_list, args))):
+            rep.fail("compose:nary-list:mutates-callers-list", "chain %s: the list passed to compose_qoperations was changed (%d -> %d elements)" % (
+                text, len(args), len(shared_list)))
+            shared_list = list(args)
         if fold_tree.clean:
             if not ok:
                 rep.fail("compose:nary-%s:raises:%s:%s" % (form, type(val).__name__, cls),
